@@ -204,6 +204,15 @@ def loop_domain(unit, cps):
     it = root[2][0]
     if it[0] == "agg" and it[1] == ("Range", "Range"):
         return "range", it[2]
+    # element-preserving adapters do not change the domain
+    while it[0] == "call" and it[1][1] in ("cloned", "copied", "by_ref", "into_iter", "peekable") and it[2]:
+        inner = it[2][0]
+        if it[1][1] in ("cloned", "copied") and inner[0] == "call" and inner[1][1] == "iter" and inner[2] and \
+                inner[2][0] == scan.self_field("keys"):
+            return "keys", inner[2][0]
+        it = inner
+    if it[0] == "call" and it[1][1] == "iter" and it[2] and it[2][0] == scan.self_field("keys"):
+        return "keys", it[2][0]
     if it[0] == "call":
         key = it[1]
         if key == ("Indexer", "iter"):
